@@ -22,8 +22,6 @@ const (
 	nRoles
 )
 
-var roleNames = [...]string{"start", "middle", "end", "single", "aggregate", "zero-length-unit", "max-aggregation", "weird"}
-
 // gstate is the generator-side state of a history.
 type gstate struct {
 	p   codecs.Params
